@@ -106,7 +106,17 @@ func runBatch(req mutReq) []mutRes {
 		return out
 	}
 	if len(req.Inputs) == 1 {
+		if outcome == "crash" || outcome == "timeout" {
+			slowOutcomes++
+		}
 		return []mutRes{{Class: outcome, Msg: msg}}
+	}
+	if slowOutcomes >= 6 {
+		out = make([]mutRes, len(req.Inputs))
+		for i := range out {
+			out[i] = mutRes{Class: "skipped"}
+		}
+		return out
 	}
 	mid := len(req.Inputs) / 2
 	a, b := req, req
@@ -217,6 +227,21 @@ func hasZeroWidthItems(s avro.Schema) bool {
 
 func allocLimit(n int) uint64 { return uint64(64*n) + 1<<20 }
 
+// slowOutcomes counts crashes and timeouts: each costs a child process and a
+// deadline, so after a handful the run stops producing further hostile cases
+// (the violation is established; the evidence says where the run stopped).
+var slowOutcomes int
+
+func tooSlow(r *Run) bool {
+	if slowOutcomes >= 6 {
+		if r.Extra["stopped_early"] == nil {
+			r.Extra["stopped_early"] = "after 6 crash/timeout outcomes"
+		}
+		return true
+	}
+	return false
+}
+
 func judge(r *Run, id int, what string, res mutRes, inputLen int, zw bool, desc map[string]any) {
 	key := ""
 	switch res.Class {
@@ -226,6 +251,8 @@ func judge(r *Run, id int, what string, res mutRes, inputLen int, zw bool, desc 
 		key = "crash"
 	case "timeout":
 		key = "hang"
+	case "skipped":
+		return
 	default:
 		if res.Alloc > allocLimit(inputLen) {
 			key = "allocation"
@@ -244,7 +271,7 @@ func runC06(r *Run) {
 	// (a) record bodies: decode and skip paths of built codecs
 	nbase := r.N(40, 300)
 	per := r.N(70, 200)
-	for i := 0; i < nbase; i++ {
+	for i := 0; i < nbase && !tooSlow(r); i++ {
 		s := genSchema(r.Rng, SchemaGenCfg{MaxDepth: 1 + r.Rng.Intn(3)})
 		d := genDatum(r.Rng, s)
 		enc := encodeDatum(s, d, genChoice(r.Rng, s, d))
@@ -286,7 +313,7 @@ func runC06(r *Run) {
 
 	// (b) container files
 	nfiles := r.N(12, 200)
-	for i := 0; i < nfiles; i++ {
+	for i := 0; i < nfiles && !tooSlow(r); i++ {
 		gf := genFile(r, 4)
 		zw := hasZeroWidthItems(gf.s)
 		ms := mutants(r, gf.file, r.N(120, 600))
